@@ -131,7 +131,7 @@ func (am *assetMgr) loadAsset(logger *slog.Logger, mpdPath string) error {
 		return fmt.Errorf("number of periods is %d, not 1", len(mpd.Periods))
 	}
 
-	if *mpd.Type != "static" {
+	if mpd.Type != nil && *mpd.Type != "static" { // the default value of MPD@type is "static"
 		return fmt.Errorf("mpd type is not static")
 	}
 
